@@ -11,7 +11,8 @@ import RpgpModel.S2k
 * `SecKey.cfbData/aeadData`           `types/params/plain_secret.rs  PlainSecretParams::encrypt`, `s2k_usage_aead`
 -/
 set_option linter.unusedVariables false
-namespace Rpgp
+namespace Rpgp.Sym
+open Rpgp
 
 /-- `Tag::encode` : `0b1100_0000 | tag` (tags are < 64, so the OR is an addition) -/
 def tagEncode (tag : Nat) : Byte := (Gen.tagEncodeBits + tag).toUInt8
@@ -226,9 +227,20 @@ end Skesk
 
 namespace SecKey
 
+/-- the `ensure!`s of `PlainSecretParams::encrypt` for `S2kParams::Cfb`: no MD5 / SHA-1 / RIPEMD-160,
+no Argon2, and for version 6 keys only iterated+salted or salted S2K (what `unlock` is willing to open) -/
+def cfbLockAllowed (ver : Nat) (s : S2k.Spec) : Bool :=
+  !s.weakHash && !s.isArgon2 &&
+    (ver != 6 || (match s with | .iterated .. => true | .salted .. => true | _ => false))
+
+/-- the `ensure!`s of `PlainSecretParams::encrypt` for `S2kParams::Aead`: no weak hash, and only
+Argon2 or iterated+salted S2K (what `unlock` is willing to open) -/
+def aeadLockAllowed (s : S2k.Spec) : Bool :=
+  !s.weakHash && (match s with | .argon2 .. => true | .iterated .. => true | _ => false)
+
 /-- usage 254: `CFB_{s2k(pw)}(iv, raw ‖ SHA1(raw))` (`PlainSecretParams::encrypt`, `S2kParams::Cfb`) -/
-def cfbData (P : Prims) (sym : Nat) (s : S2k.Spec) (pw iv raw : Bytes) : Option Bytes := do
-  if s.weakHash || s.isArgon2 then none
+def cfbData (P : Prims) (ver sym : Nat) (s : S2k.Spec) (pw iv raw : Bytes) : Option Bytes := do
+  if !cfbLockAllowed ver s then none
   let key ← S2k.derive P s pw (Gen.c12SymKeySize sym)
   pure (P.cfbEnc sym key iv (raw ++ (P.hash sha1Id raw).take 20))
 
@@ -242,26 +254,25 @@ def aeadAd (tag : Nat) (pubBody : Bytes) : Bytes := (Gen.secAeadTypeBits + tag).
 /-- usage 253 (`S2kParams::Aead`): the code expands 32 octets, the AEAD uses `key[..key_size]` -/
 def aeadData (P : Prims) (sym aead : Nat) (s : S2k.Spec) (pw nonce : Bytes) (tag ver : Nat)
     (pubBody raw : Bytes) : Option Bytes := do
-  if s.weakHash then none
+  if !aeadLockAllowed s then none
   let derived ← S2k.derive P s pw (Gen.c12SymKeySize sym)
   let kek := (P.hkdf sha256Id [] derived (aeadInfo tag ver sym aead) Gen.secAeadOkmLen).take (Gen.c12SymKeySize sym)
   pure (P.aead sym aead kek nonce (aeadAd tag pubBody) raw)
 
-/-- `enc = true`: sender side (`PlainSecretParams::encrypt` refuses weak S2K hashes, and Argon2
-with CFB); `enc = false`: what `EncryptedSecretParams::unlock` is expected to open (it refuses
+/-- `enc = true`: sender side (the refusals of `PlainSecretParams::encrypt`, see `cfbLockAllowed`); `enc = false`: what `EncryptedSecretParams::unlock` is expected to open (it refuses
 Argon2 with CFB too) -/
-def cfbPlan (enc : Bool) (sym : Nat) (s : S2k.Spec) (pw iv raw : Bytes) : Option PExpr := do
-  if (enc && s.weakHash) || s.isArgon2 then none
+def cfbPlan (enc : Bool) (ver sym : Nat) (s : S2k.Spec) (pw iv raw : Bytes) : Option PExpr := do
+  if (enc && !cfbLockAllowed ver s) || s.isArgon2 then none
   let key ← S2k.plan s pw (Gen.c12SymKeySize sym)
   pure (.cfb sym key (.lit iv) (.cat (.lit raw) (.take 20 (.hash sha1Id (.lit raw)))))
 
 def aeadPlan (enc : Bool) (sym aead : Nat) (s : S2k.Spec) (pw nonce : Bytes) (tag ver : Nat) (pubBody raw : Bytes) :
     Option PExpr := do
-  if enc && s.weakHash then none
+  if enc && !aeadLockAllowed s then none
   let derived ← S2k.plan s pw (Gen.c12SymKeySize sym)
   let kek : PExpr := .take (Gen.c12SymKeySize sym)
     (.hkdf sha256Id (.lit []) derived (.lit (aeadInfo tag ver sym aead)) Gen.secAeadOkmLen)
   pure (.aead sym aead kek (.lit nonce) (.lit (aeadAd tag pubBody)) (.lit raw))
 
 end SecKey
-end Rpgp
+end Rpgp.Sym
